@@ -82,7 +82,7 @@ PLANS = {
         dump=None,
         random=dict(n=120, n_thorough=800, length=30, with_down=False, with_state_loss=False, tx_heavy=True),
         invariants=["C02_EveryTxidIsACommittedState", "C02_Level0Gapless"],
-        witnesses=["M1", "M2", "S3", "S2"],
+        witnesses=["M1", "M2", "S3"],
         audit=True, chunked=True,
         nontrivial="distinct schedule whose replica lists at least 3 TXIDs, each restored and compared with the ledger of committed states",
     ),
